@@ -175,8 +175,8 @@ theorem txCdsOf_roundtrip {c : Option (List Int × List Int × List CDSFrame)} (
   | none => rfl
   | some c =>
     obtain ⟨s, e, f⟩ := c
-    have ⟨_, h2, h3⟩ := h s e f rfl
-    simp [txCdsOf, h2, h3]
+    have ⟨h1, h2, h3⟩ := h s e f rfl
+    simp [txCdsOf, h1, h2, h3]
 
 theorem optInts_of (l : List Int) (h : l ≠ []) : optInts (ofInts l) = .ok (some l) := by
   have : l.isEmpty = false := by cases l with | nil => exact absurd rfl h | cons _ _ => rfl
@@ -302,7 +302,7 @@ structure GeneWF (o : GeneObj) : Prop where
   children : ∀ t ∈ o.transcripts, TxWF t
   nonempty : o.transcripts ≠ []
 
-theorem gene_roundtrip (o : GeneObj) (h : GeneWF o) : geneFromDict md5 (geneToDict o) = .ok o := by
+theorem gene_roundtrip (cs : Int) (o : GeneObj) (h : GeneWF o) : geneFromDict md5 cs (geneToDict o) = .ok o := by
   obtain ⟨txs, gid, sym, ty, lt, q, sn, sg, g⟩ := o
   have hq := quals_roundtrip h.quals
   have hb := optBiotype_roundtrip h.biotype
@@ -326,7 +326,7 @@ structure FcWF (o : FcObj) : Prop where
   children : ∀ t ∈ o.features, FeatWF t
   nonempty : o.features ≠ []
 
-theorem fc_roundtrip (o : FcObj) (h : FcWF o) : fcFromDict md5 (fcToDict o) = .ok o := by
+theorem fc_roundtrip (cs : Int) (o : FcObj) (h : FcWF o) : fcFromDict md5 cs (fcToDict o) = .ok o := by
   obtain ⟨fs, name, id, ct, lt, q, sn, sg, g⟩ := o
   have hq := quals_roundtrip h.quals
   have hc : (fs.map featToDict).mapM (featFromDict md5) = .ok fs :=
@@ -350,7 +350,7 @@ structure VcWF (o : VcObj) : Prop where
   nonempty : o.variants ≠ []
   sorted : o.variants.Pairwise fun a b => a.args.start ≤ b.args.start
 
-theorem vc_roundtrip (o : VcObj) (h : VcWF o) : vcFromDict md5 (vcToDict o) = .ok o := by
+theorem vc_roundtrip (cs : Int) (o : VcObj) (h : VcWF o) : vcFromDict md5 cs (vcToDict o) = .ok o := by
   obtain ⟨vs, name, id, q, sn, sg, g⟩ := o
   have hq := quals_roundtrip h.quals
   have hc : (vs.map varToDict).mapM (varFromDict md5) = .ok vs :=
@@ -375,7 +375,7 @@ theorem vc_roundtrip (o : VcObj) (h : VcWF o) : vcFromDict md5 (vcToDict o) = .o
 def ParentWF : ParentDesc → Prop
   | .none => True
   | .bare id chromosome => chromosome = true ∨ ∃ n, id = some n ∧ n ≠ []
-  | .chrom sq _ _ => sq ≠ []
+  | .chrom sq _ id => sq ≠ [] ∧ id ≠ none
   | .chunk sq _ _ _ _ _ => sq ≠ []
 
 theorem truthy_str_ne {s : Str} (h : s ≠ []) : truthy (.str s) = true := by
@@ -397,11 +397,13 @@ theorem parent_roundtrip (p : ParentDesc) (b : Int × Int) (h : ParentWF p) :
       hu, beq_self_eq_true]
     rfl
   | chrom sq al id =>
-    have hs : truthy (.str sq) = true := truthy_str_ne h
+    have hs : truthy (.str sq) = true := truthy_str_ne h.1
+    obtain ⟨n, rfl⟩ : ∃ n, id = some n := by cases id with | none => exact absurd rfl h.2 | some n => exact ⟨n, rfl⟩
     have hu : (some (upperAscii "CHROMOSOME".toList) == some "SEQUENCE_CHUNK".toList) = false := by decide
     simp only [parentToDict, parentFromDict, getOpt_mkDict]
     simp only [lookupK, reduceCtorEq, ↓reduceIte, Option.getD_some, hs, if_true, asStr, bind_ok, pure_ok, typeUpper,
-      asOptStr_of, map_ok, show truthy (.str "CHROMOSOME".toList) = true from rfl, hu, Bool.false_eq_true, if_false]
+      ofOptStr, truthyOrPresent, Bool.not_true, asOptStr,
+      map_ok, show truthy (.str "CHROMOSOME".toList) = true from rfl, hu, Bool.false_eq_true, if_false]
     rfl
   | bare id c =>
     cases c with
@@ -447,12 +449,12 @@ theorem ac_roundtrip (o : AcObj) (h : AcWF md5 o) (ep : Bool) (d : PyVal) (hd : 
     acFromDict md5 d (if ep then .none else o.parent) = .ok o := by
   obtain ⟨genes, fcs, vcs, name, id, q, sn, sg, sp, bounds, cw, parent, g⟩ := o
   have hq := quals_roundtrip h.quals
-  have hg : optChildren (geneFromDict md5) (.list (genes.map geneToDict)) = .ok genes :=
-    optChildren_roundtrip fun x hx => gene_roundtrip md5 x (h.genes x hx)
-  have hf : optChildren (fcFromDict md5) (.list (fcs.map fcToDict)) = .ok fcs :=
-    optChildren_roundtrip fun x hx => fc_roundtrip md5 x (h.fcs x hx)
-  have hv : optChildren (vcFromDict md5) (.list (vcs.map vcToDict)) = .ok vcs :=
-    optChildren_roundtrip fun x hx => vc_roundtrip md5 x (h.vcs x hx)
+  have hg : optChildren (geneFromDict md5 parent.chunkStart) (.list (genes.map geneToDict)) = .ok genes :=
+    optChildren_roundtrip fun x hx => gene_roundtrip md5 _ x (h.genes x hx)
+  have hf : optChildren (fcFromDict md5 parent.chunkStart) (.list (fcs.map fcToDict)) = .ok fcs :=
+    optChildren_roundtrip fun x hx => fc_roundtrip md5 _ x (h.fcs x hx)
+  have hv : optChildren (vcFromDict md5 parent.chunkStart) (.list (vcs.map vcToDict)) = .ok vcs :=
+    optChildren_roundtrip fun x hx => vc_roundtrip md5 _ x (h.vcs x hx)
   have hguid := h.guid
   simp only at hq hguid
   cases bounds with
